@@ -1,8 +1,9 @@
-import Props.C01
-import Proofs.FloatELaw
+import Props.C01F
+import Proofs.FloatEClauses
 /-!
 C01 for layouts with floats in either notation: the render / parse law of E-notation float
-fields (`law_flt_E`) and the read-back and stability of whole lines (`main_FE`).
+fields (`law_flt_E`), the read-back and stability of whole lines (`main_FE`) and the whole of
+`Spec.C01.holds`, float clauses included (`main_FE_full`).
 -/
 namespace Props.C01
 open Cfi Cfi.Text Spec.C01 Proofs.FloatE Proofs.FloatELaw
@@ -137,13 +138,79 @@ theorem main_FE (fs : List Field) (vs : List Val) (h : inDomain fs vs = true)
   have hst := line_stable fs vs w hlen hD hlaw hw
   exact ⟨⟨w, readPos fs w, w⟩, by simp [cycle, hw, hst], rfl, hread⟩
 
+/-- the float clauses for one field of an admitted layout, floats in either notation -/
+theorem clauses_FE (f : Field) (v : Val) (r : List Char) (hd : fieldInDomain f v = true)
+    (hflt : FloatFE f v) (hrend : rendersTo f v r) : floatClauses f v r = true := by
+  by_cases hF : FloatF f v
+  · exact clauses_F f v r hd hF hrend
+  · have : ∃ dec fmt sep, f.kind = .flt dec fmt sep ∧ (fmt = 'E' ∨ fmt = 'e') ∧
+        ∃ neg m e, v = .dbl (.fin neg m e) ∧ wfn m e := by
+      apply Classical.byContradiction
+      intro hno
+      apply hF
+      intro dec fmt sep hk
+      rcases hflt dec fmt sep hk with hn | hf | he
+      · exact Or.inl hn
+      · exact Or.inr hf
+      · exact absurd ⟨dec, fmt, sep, hk, he⟩ hno
+    obtain ⟨dec, fmt, sep, hk, hfmt, neg, m, e, rfl, hwf⟩ := this
+    have hdom := hd
+    simp only [fieldInDomain, Bool.and_eq_true, decide_eq_true_eq, hk] at hdom
+    obtain ⟨⟨hfits, _⟩, hsep, hnot⟩ := hdom
+    obtain ⟨c, rfl⟩ : ∃ c, sep = [c] := by
+      cases sep with
+      | nil => simp [sepOk] at hsep
+      | cons c t =>
+        cases t with
+        | nil => exact ⟨c, rfl⟩
+        | cons _ _ => simp [sepOk] at hsep
+    have hdec : dec ≤ 12 := by
+      rcases hfmt with rfl | rfl <;> simpa using hnot
+    obtain ⟨hc1, hc2, hc3⟩ := sep_facts hsep
+    obtain ⟨hc4, hc5, hc6⟩ := sep_factsE hsep
+    have hm0 : m ≠ 0 := by
+      intro h0; subst h0
+      have := Proofs.Nearest.two_pow_pos 52
+      have := hwf.1; omega
+    obtain ⟨r', hr', hfit⟩ := round_of_fits_E f dec fmt c hk hfmt neg m e hm0 hfits
+    obtain ⟨t, h1, _, _, _, m', e', k, _, hsci, hteq⟩ :=
+      fltE_core f dec fmt c hk hfmt hc1 hc2 hc3 hc4 hc5 hc6 neg m e hwf hdec r' hr' hfit
+    have hrt : r = t := by
+      have := hrend.1
+      rw [h1] at this
+      injection this with this
+      exact this.symm
+    rw [hrt, hteq]
+    exact Proofs.FloatEClauses.floatClauses_E f dec fmt c hk hfmt hsep neg m e hm0
+      (by have := hwf.2.2.1; omega) hdec m' e' hsci k
+
+/-- **C01 in full, floats in either notation.** For every layout and value list admitted by
+`Spec.C01.inDomain` whose non-missing floats are finite doubles below `2^1013` in F-notation
+fields of at most 323 decimals, or normal doubles between `2^-948` and `2^1013` in E-notation
+fields: the model's write / read / re-write cycle satisfies the whole of `Spec.C01.holds` —
+values read back are the canonical forms, the re-written text is identical, and every float is
+written in the configured dialect and within half a unit of its last emitted digit (F
+notation: with the largest number of decimals that fits). -/
+theorem main_FE_full (fs : List Field) (vs : List Val) (h : inDomain fs vs = true)
+    (hdate : ∀ fv ∈ fs.zip vs, ∀ fmts, fv.1.kind = .date fmts → fv.2.isNull = true → ∀ fm ∈ fmts, fm ≠ [])
+    (hbig : ∀ v ∈ vs, ∀ n, v = .int n → n.natAbs < 10 ^ 4300)
+    (hflt : ∀ fv ∈ fs.zip vs, FloatFE fv.1 fv.2) :
+    ∃ o, cycle fs vs = some o ∧ holds fs vs o = true := by
+  obtain ⟨o, hc, hst, hrb⟩ := main_FE fs vs h hdate hbig hflt
+  refine ⟨o, hc, holds_of_clauses fs vs h o hc hst hrb ?_⟩
+  intro fv hfv r hrend
+  have hdom0 := h
+  simp only [inDomain, Bool.and_eq_true, beq_iff_eq, List.all_eq_true] at hdom0
+  exact clauses_FE fv.1 fv.2 r (hdom0.2 fv hfv) (hflt fv hfv) hrend
+
 end Props.C01
 
 namespace Props.C01
 open Cfi Cfi.Text Spec.C01 Proofs.FloatE Proofs.FloatELaw
 
 /-- non-vacuity: an integer and the double 9.9996 in E notation with three decimals (rounding
-crosses a power of ten: the text is `1.000E+01`) meet every premise of `main_FE` -/
+crosses a power of ten: the text is `1.000E+01`) meet every premise of `main_FE` and of
+`main_FE_full` -/
 example :
     let fs := [Field.mk' .int 5 1, Field.mk' (.flt 3 'E' ['.']) 12 8]
     let vs := [Val.int (-42), Val.dbl (.fin false 5629274354231751 (-49))]
